@@ -18,8 +18,8 @@ func init() {
 	core.Register(&core.Check{
 		ID: "C34", Level: "other", Title: "Validator pool invariants hold across epochs",
 		Technique: "guard dominance + quasi-linear normal forms + value flow of index allocation",
-		Explain: "node_manager, structural necessary conditions of each clause: (min size) QuitNode's status change and pool write are dominated by the fail edge of num <= MIN_PEER_NUM, BlackNode's by num <= MIN_PEER_NUM+len(list)-1 (threshold trees proved: accepted iff num-removed >= MIN_PEER_NUM, MIN_PEER_NUM = 4), num counting exactly the Candidate|Consensus entries of the current view; (one entry per key) every write into PeerPoolMap is keyed by the entry's own PeerPubkey / the request's key; (blacklist) RegisterCandidate's putPeerApply is dominated by blacklist-miss, not-yet-applied and not-in-pool for the same key; (distinct indices) ApproveCandidate takes the index either from the stored PEER_INDEX record of that key or from getCandidateIndex() and then stores candidateIndex+1 back on that same path before the PEER_INDEX record is written, and InitConfig seeds the counter with 1 + the maximum Index over the genesis peers (selection-by-comparison loop), so an allocated index exceeds every index in use; (epoch change) executeCommitDpos is dominated by height != governanceView.Height (once per block), stores the pool under view+1 and the governance view with View = view+1, deletes Quiting/Black entries and sets every Candidate/Consensus entry to ConsensusStatus. NOT decided: the invariants as statements over all operation histories.",
-		Run: runC34,
+		Explain:   "node_manager, structural necessary conditions of each clause: (min size) QuitNode's status change and pool write are dominated by the fail edge of num <= MIN_PEER_NUM, BlackNode's by num <= MIN_PEER_NUM+len(list)-1 (threshold trees proved: accepted iff num-removed >= MIN_PEER_NUM, MIN_PEER_NUM = 4), num counting exactly the Candidate|Consensus entries of the current view; (one entry per key) every write into PeerPoolMap is keyed by the entry's own PeerPubkey / the request's key; (blacklist) RegisterCandidate's putPeerApply is dominated by blacklist-miss, not-yet-applied and not-in-pool for the same key; (distinct indices) ApproveCandidate takes the index either from the stored PEER_INDEX record of that key or from getCandidateIndex() and then stores candidateIndex+1 back on that same path before the PEER_INDEX record is written, and InitConfig seeds the counter with 1 + the maximum Index over the genesis peers (selection-by-comparison loop), so an allocated index exceeds every index in use; (epoch change) executeCommitDpos is dominated by height != governanceView.Height (once per block), stores the pool under view+1 and the governance view with View = view+1, deletes Quiting/Black entries and sets every Candidate/Consensus entry to ConsensusStatus. NOT decided: the invariants as statements over all operation histories.",
+		Run:       runC34,
 	})
 }
 
